@@ -515,15 +515,19 @@ long long c_voronoi(long long nrows, long long ncols,
     long long i, j, jmin, ierr, idxcell;
     double xy[2], dx, dy, dist, distmin;
 
+    /* At least one point is needed */
+    if(npoints < 1)
+        return GRID_ERROR + __LINE__;
+
     for(j=0; j<npoints; j++)
         weights[j] = 0;
 
     for(i=0; i<ncells; i++)
     {
-        /* Get cell number for coordinates */
+        /* Get coordinates of the cell centre */
         idxcell = idxcells_area[i];
-        xy[0] = xypoints[2*i];
-        xy[1] = xypoints[2*i+1];
+        if(idxcell<0 || idxcell>=nrows*ncols)
+            return GRID_ERROR + __LINE__;
 
         ierr = getcoord(nrows, ncols, xll, yll, csz, idxcell, xy);
         if(ierr>0)
